@@ -99,9 +99,10 @@ DocGuard(r) ==
       t1 == 200
       t2 == (22 * ((180000000 - dl) \div 1000)) \div 10000
       t3 == (6 * dd * dd) \div 1000000
-      \* NearPoleGuard (named): the margin of the header is met for |f| <= 1/150 (family index 0..6) only; for larger |f| the origin
-      \* and scale degrade when a parallel is within 0.1 degree of a pole (finding, notes/C11.md), so the laws bind up to 89.9 there
-  IN r.same \/ (dl <= 160000000 /\ mx <= 90000000 - Min(t1, Min(t2, t3)) /\ (r.fi >= 7 => mx <= 89900000))
+      \* NearPoleGuard (named): the margin of the header is met with room for |f| <= 1/298.257 (family index 0..4: WGS84, its prolate
+      \* mirror, spheres); at |f| = 1/150 the origin error reaches 0.76 of the bound, at 0.02 it is 3.3 x, at 0.2 584 x when a parallel is
+      \* within 0.001 degree of a pole (observation, notes/C11.md), so for index >= 5 the laws bind up to |stdlat| <= 89.9 only
+  IN r.same \/ (dl <= 160000000 /\ mx <= 90000000 - Min(t1, Min(t2, t3)) /\ (r.fi >= 5 => mx <= 89900000))
 
 \* the closed form as evaluated by the driver is usable
 OrcOK(r) == r.ev /\ (r.same \/ (r.sepq >= 500000 /\ r.ocn >= 0 /\ r.ocn <= OcnMax)) /\ DocGuard(r)
@@ -114,8 +115,9 @@ PtClauses(r) ==
       wrap == r.gq <= 179900000                 \* the cone angle stays inside (-180, 180): Reverse can identify the point
       gtol == IF r.gul >= 0 /\ r.gul < Big THEN 4 * r.gul ELSE 0     \* gamma = k0^2 n (lon - lon0) is returned in degrees: four ulps of |gamma|
       \* finite differences: away from the poles and the cut, and 0.01 <= k <= 100 (round-off of the quotient grows with 1/k)
-      \* and x, y not so large that their rounding (amp, <= 1e-12 a in true distance) shows in the quotient (1e-12 / h = 2.3e-7)
-      fd == Abs(r.latq) <= 89000000 /\ Abs(r.dlq) <= 179000000 /\ r.kq >= -2000000 /\ r.kq <= 2000000 /\ r.amp >= 0 /\ r.amp <= 1000000
+      \* and x, y not so large that their admitted error (CondMult x amp, amp <= 1e-13 a in true distance) shows in the quotient:
+      \* 16 x 1e-13 / (2 h) = 1.9e-7
+      fd == Abs(r.latq) <= 89000000 /\ Abs(r.dlq) <= 179000000 /\ r.kq >= -2000000 /\ r.kq <= 2000000 /\ r.amp >= 0 /\ r.amp <= 100000
   IN
   << <<"fin", r.fin>>,                                                   \* "large but finite" also where the image is at infinity
      <<"rfin", r.rfin /\ r.rng>>,                                        \* Reverse: finite, lat in [-90,90], lon in [-180,180]
